@@ -1000,8 +1000,9 @@ class Interp:
                 if pos[0] == "data":
                     st.hpos[h.hid] = ("data", pos[1], Num(pos[2].r + amt.r))
                 else:
-                    self.g("G3", False, f"relative seek by {amt.text()} while the handle is not inside FAB data "
-                                        f"(state {pos[0]})", node)
+                    self.g("G3", None if pos[0] == "top" else False,
+                           f"relative seek by {amt.text()} while the handle is not inside FAB data "
+                           f"(state {pos[0]}{': ' + str(pos[1]) if pos[0] == 'top' and len(pos) > 1 else ''})", node)
                     st.hpos[h.hid] = ("top", "relative seek outside data")
                 return Top("seek result")
             if whence == 2:
@@ -1024,7 +1025,7 @@ class Interp:
                                         f"{full.text()} data bytes: the line read is not a FAB header", node)
                     fabkey = "misaligned"
             else:
-                self.g("G3", False, f"readline with the handle in state {pos}", node)
+                self.g("G3", None if pos[0] == "top" else False, f"readline with the handle in state {pos}", node)
                 fabkey = "unknown"
             st.hpos[h.hid] = ("data", h.fab, Num(0))
             self.emit(st, "readline", node, h=h, fabkey=fabkey, before=pos)
@@ -1065,7 +1066,7 @@ class Interp:
                 return None
             old, new = count_of(a), count_of(b)
             if old is None or new is None:
-                self.g("G6", False, f"header rewritten by an unrecognised replace({a.text()}, {b.text()})", node)
+                self.g("G6", None, f"header rewritten by an unrecognised replace({a.text()}, {b.text()})", node)
                 return Top("replace")
             ok = self.eq(old, hdr.ncomp)
             self.g("G6", ok, f"header count replacement replaces {old.text()} (the header carries "
@@ -1112,8 +1113,10 @@ class Interp:
             h.fab = h.idx_fab
             self.g("G6-IDX", True, f"built header takes start and stop from the same index pair <{s_lo}>", node)
         else:
-            self.g("G6-IDX", False, f"header_from_indices(start={lo.text()}, stop={hi.text()}): start/stop are "
-                                    f"not element 0 / element 1 of one index pair", node)
+            undec = any(isinstance(x, (Top, Opaque)) or "opaque:" in x.text() or "TOP(" in x.text() for x in (lo, hi))
+            self.g("G6-IDX", None if undec else False,
+                   f"header_from_indices(start={lo.text()}, stop={hi.text()}): start/stop are "
+                   f"not element 0 / element 1 of one index pair", node)
         self.emit(st, "build-header", node, hdr=h)
         return h
 
@@ -1143,13 +1146,14 @@ class Interp:
         ok = dts in ("float64", "<f8", "f8", "d") or (dts or "").endswith("float64")
         self.g("G1", ok, f"fromfile dtype is {dts!r} (FAB data is float64)", node)
         if not isinstance(h, Handle):
-            self.g("G3", False, f"fromfile on a non-handle {h.text()}", node)
+            self.g("G3", None if isinstance(h, (Top, Opaque)) else False, f"fromfile on a non-handle {h.text()}", node)
             return Top("fromfile")
         pos = st.hpos.get(h.hid, ("top", ""))
         arr = ArrV(h.fab)
         if cnt is None or not isinstance(cnt, Num):
-            self.g("G5", False, f"fromfile without a symbolic element count ({cnt.text() if cnt else 'absent'}) "
-                                f"reads to end of file", node)
+            self.g("G5", False if cnt is None else None,
+                   f"fromfile without a symbolic element count ({cnt.text() if cnt else 'absent'}) "
+                   f"reads to end of file", node)
             st.hpos[h.hid] = ("top", "unbounded read")
             arr.count = Num.atom("unbounded")
             arr.win_lo = Num(0)
@@ -1161,8 +1165,9 @@ class Interp:
             st.hpos[h.hid] = ("data", pos[1], Num(pos[2].r + Ratio(8) * cnt.r))
             self.g("G3", True, "fromfile inside FAB data after its header was consumed", node)
         else:
-            self.g("G3", False, f"fromfile while the handle is in state {pos[0]} (no FAB header consumed at a "
-                                f"recorded offset / scan position)", node)
+            self.g("G3", None if pos[0] == "top" else False,
+                   f"fromfile while the handle is in state {pos[0]} (no FAB header consumed at a "
+                   f"recorded offset / scan position)", node)
             arr.win_lo = Num.atom("unknown")
             st.hpos[h.hid] = ("top", "read outside data")
         self.emit(st, "fromfile", node, h=h, arr=arr, pos=pos, count=cnt)
@@ -1269,7 +1274,7 @@ class Interp:
                 else:
                     dims, n = items, None
             else:
-                self.g("G2", False, f"reshape to an unrecognised shape {shp.text() if shp else None}", node)
+                self.g("G2", None, f"reshape to an unrecognised shape {shp.text() if shp else None}", node)
                 return Top("reshape")
             tot = Ratio(1)
             for d in dims:
@@ -1569,17 +1574,18 @@ class Interp:
                 return self.eq(p[2], self.fab_n_bytes(p[1]))
             return False
         if p0[0] == "aligned" or aligned(p0):
-            ok = aligned(p1)
+            ok = None if (p1 is not None and p1[0] == "top") else aligned(p1)
             adv = p1[2].text() if p1 and p1[0] == "data" else str(p1)
             self.g("G4", ok, f"scan of {h.path.text()}: bytes consumed after each FAB header = {adv}; a whole FAB "
                              f"is {self.fab_n_bytes(h.fab).text()}", first.node)
         elif p0[0] == "data":
-            ok = p1 is not None and p1[0] == "data" and self.eq(p0[2], p1[2])
+            ok = None if (p1 is not None and p1[0] == "top") else (p1 is not None and p1[0] == "data" and self.eq(p0[2], p1[2]))
             self.g("G4", ok, f"loop over {h.path.text()} enters with the handle {p0[2].text()} bytes past a header "
                              f"and comes back {p1[2].text() if p1 and p1[0] == 'data' else p1} bytes past one",
                    first.node)
         else:
-            self.g("G4", False, f"loop uses {h.path.text()} position-dependently from state {p0}", first.node)
+            self.g("G4", None if p0[0] == "top" else False,
+                   f"loop uses {h.path.text()} position-dependently from state {p0}", first.node)
 
     def st_While(self, s, st):
         label = f"while@{s.lineno}"
@@ -1682,11 +1688,13 @@ def report_generic(ctx, res, prop_rule_prefix, skip=()):
             continue
         seen.add(k)
         full_rule = f"{prop_rule_prefix}.{rule}"
-        if ok:
+        if ok is None:
+            ctx.unknown(full_rule, fi.site, what, key=_key_of(node), where=f"{fi.module.relpath}:{line}")
+        elif ok:
             ctx.ok(full_rule, fi.site, what, key=_key_of(node))
         else:
             ctx.finding(full_rule, fi.site, what, key=_key_of(node),
-                        where=f"{fi.module.relpath}:{line}")
+                        where=f"{fi.module.relpath}:{line}", semantic=True)
 
 
 def _key_of(node):
